@@ -30,7 +30,7 @@ Print Assumptions C15_no_digest_never_reused.
 
 Theorem C15_stale_without_digest_replaced :
   forall (sha : bytes -> string) w fn res st b s,
-  adv_of res = None -> wscript w = RBody st b :: s ->
+  adv_of res = None -> wscript w = RBody st b :: s -> raises_for_status st = false ->
   exists w', do_download sha w fn res = (w', DOk false) /\ lookup (wdir w') fn = Some b /\
              (forall g, g <> fn -> lookup (wdir w') g = lookup (wdir w) g) /\ wlog w' = res :: wlog w.
 Proof. exact stale_without_digest_replaced. Qed.
@@ -43,8 +43,12 @@ Theorem C15_mismatch_never_kept :
   do_download sha w fn res = (w', r) ->
   r <> DOk true /\ wlog w' = res :: wlog w /\
   match wscript w with
-  | RBody _ b :: _ => r = DOk false /\ lookup (wdir w') fn = Some b
-  | RBreak _ b :: _ => r = DExn ChunkedEncodingError /\ lookup (wdir w') fn = Some b
+  | RBody st b :: _ =>
+      if raises_for_status st then r = DExn HTTPError /\ lookup (wdir w') fn = None
+      else r = DOk false /\ lookup (wdir w') fn = Some b
+  | RBreak st b :: _ =>
+      if raises_for_status st then r = DExn HTTPError /\ lookup (wdir w') fn = None
+      else r = DExn ChunkedEncodingError /\ lookup (wdir w') fn = Some b
   | _ => r = DExn ConnectionError /\ lookup (wdir w') fn = None
   end.
 Proof. exact mismatch_never_kept. Qed.
@@ -52,7 +56,7 @@ Print Assumptions C15_mismatch_never_kept.
 
 Theorem C15_partial_file_replaced :
   forall (sha : bytes -> string) d fn served k res a st b s log,
-  adv_of res = Some a -> sha (take k served) <> a ->
+  adv_of res = Some a -> sha (take k served) <> a -> raises_for_status st = false ->
   exists w', do_download sha (mkW (crashed d fn served k) (RBody st b :: s) log) fn res = (w', DOk false) /\
              lookup (wdir w') fn = Some b /\
              (forall g, g <> fn -> lookup (wdir w') g = lookup d g) /\
@@ -61,31 +65,24 @@ Proof. exact partial_file_replaced. Qed.
 Print Assumptions C15_partial_file_replaced.
 
 (* -- removal of undecodable fresh downloads ------------------------------------------------- *)
-Theorem C15_undecodable_fresh_removed_partial :
+Theorem C15_undecodable_fresh_removed :
   forall (sha : bytes -> string) (meta : fname -> bytes -> mres) w c fn w1 content,
   cfile c = Some fn -> do_download sha w fn (cres c) = (w1, DOk false) ->
-  lookup (wdir w1) fn = Some content -> meta fn content = MMetaErr ->
-  exists w', resolve sha meta w c = (w', RExn MetadataError) /\ lookup (wdir w') fn = None /\
+  lookup (wdir w1) fn = Some content -> meta fn content <> MReadable ->
+  exists w' e, resolve sha meta w c = (w', RExn e) /\ (e = MetadataError \/ e = OtherError) /\
+             lookup (wdir w') fn = None /\
              (forall g, g <> fn -> lookup (wdir w') g = lookup (wdir w1) g) /\
              wlog w' = wlog w1.
 Proof. exact undecodable_fresh_removed. Qed.
-Print Assumptions C15_undecodable_fresh_removed_partial.
+Print Assumptions C15_undecodable_fresh_removed.
 
-Theorem C15_metadata_error_leaves_no_fresh_file :
-  forall (sha : bytes -> string) (meta : fname -> bytes -> mres) w c w',
-  resolve sha meta w c = (w', RExn MetadataError) ->
+Theorem C15_extraction_error_leaves_no_fresh_file :
+  forall (sha : bytes -> string) (meta : fname -> bytes -> mres) w c w' e,
+  resolve sha meta w c = (w', RExn e) -> e = MetadataError \/ e = OtherError ->
   exists fn, cfile c = Some fn /\
     ((do_download sha w fn (cres c) = (w', DOk true)) \/ lookup (wdir w') fn = None).
-Proof. exact metadata_error_leaves_no_fresh_file. Qed.
-Print Assumptions C15_metadata_error_leaves_no_fresh_file.
-
-Theorem C15_undecodable_other_exception_kept_refuted :
-  ~ (forall (sha : bytes -> string) (meta : fname -> bytes -> mres) w c fn w1 content w' r,
-      cfile c = Some fn -> do_download sha w fn (cres c) = (w1, DOk false) ->
-      lookup (wdir w1) fn = Some content -> meta fn content <> MReadable ->
-      resolve sha meta w c = (w', r) -> lookup (wdir w') fn = None).
-Proof. exact undecodable_other_exception_kept_refuted. Qed.
-Print Assumptions C15_undecodable_other_exception_kept_refuted.
+Proof. exact extraction_error_leaves_no_fresh_file. Qed.
+Print Assumptions C15_extraction_error_leaves_no_fresh_file.
 
 (* -- the scan over candidates ----------------------------------------------------------------- *)
 Theorem C15_used_file_verified_or_fresh :
@@ -95,40 +92,42 @@ Theorem C15_used_file_verified_or_fresh :
   exists fn content, cfile c = Some fn /\ lookup (wdir w') fn = Some content /\
     meta fn content = MReadable /\
     (if cached then exists a, adv_of (cres c) = Some a /\ sha content = a
-     else exists st, In (RBody st content) (wscript w)).
+     else exists st, In (RBody st content) (wscript w) /\ raises_for_status st = false).
 Proof. exact used_file_verified_or_fresh. Qed.
 Print Assumptions C15_used_file_verified_or_fresh.
 
-Theorem C15_broken_transfer_fails_run_partial :
+Theorem C15_failed_transfer_fails_run :
   forall (sha : bytes -> string) (meta : fname -> bytes -> mres) allow maxdg w c rest tried v fn w1 e,
   cver c = Some v -> (csdist c && negb allow) = false -> cfile c = Some fn ->
   do_download sha w fn (cres c) = (w1, DExn e) ->
   scan sha meta allow maxdg w (c :: rest) tried = (w1, SExn e) /\ e <> NoCandidate /\ e <> MetadataError.
-Proof. exact broken_transfer_fails_run. Qed.
-Print Assumptions C15_broken_transfer_fails_run_partial.
+Proof. exact failed_transfer_fails_run. Qed.
+Print Assumptions C15_failed_transfer_fails_run.
 
-Theorem C15_transfer_refuted :
-  exists w', scan toy_sha w_meta true None
-               (mkW [] [RBody 503 w_page; RBody 200 w_good1] []) [w_c2; w_c1] []
-             = (w', SOk w_c1 false)
-          /\ lookup (wdir w') w_f2 = None /\ lookup (wdir w') w_f1 = Some w_good1
-          /\ List.length (wlog w') = 2.
-Proof. exact transfer_refuted. Qed.
-Print Assumptions C15_transfer_refuted.
-
-Theorem C15_transfer_full_statement_refuted :
-  ~ (forall (sha : bytes -> string) (meta : fname -> bytes -> mres) d st b s c rest w' r,
-      raises_for_status st = true ->
-      scan sha meta true None (mkW d (RBody st b :: s) []) (c :: rest) [] = (w', r) ->
-      (exists e, r = SExn e) \/ (exists cached, r = SOk c cached)).
-Proof. exact transfer_full_statement_refuted. Qed.
-Print Assumptions C15_transfer_full_statement_refuted.
+Theorem C15_error_status_fails_run :
+  forall (sha : bytes -> string) (meta : fname -> bytes -> mres) allow maxdg w c rest tried v fn r s st,
+  cver c = Some v -> (csdist c && negb allow) = false -> cfile c = Some fn ->
+  (forall a c0, adv_of (cres c) = Some a -> lookup (wdir w) fn = Some c0 -> sha c0 <> a) ->
+  wscript w = r :: s -> resp_status r = Some st -> raises_for_status st = true ->
+  exists w1, scan sha meta allow maxdg w (c :: rest) tried = (w1, SExn HTTPError) /\
+             wscript w1 = s /\ wlog w1 = cres c :: wlog w /\
+             (lookup (wdir w1) fn = None \/ lookup (wdir w1) fn = lookup (wdir w) fn) /\
+             (forall g, g <> fn -> lookup (wdir w1) g = lookup (wdir w) g).
+Proof. exact error_status_fails_run. Qed.
+Print Assumptions C15_error_status_fails_run.
 
 Theorem C15_fresh_transfer_unverified_refuted :
   exists w' a, scan toy_sha w_meta2 true None (mkW [] [RBody 200 w_alt2] []) [w_c2] [] = (w', SOk w_c2 false)
           /\ adv_of (cres w_c2) = Some a /\ lookup (wdir w') w_f2 = Some w_alt2 /\ toy_sha w_alt2 <> a.
 Proof. exact fresh_transfer_unverified_refuted. Qed.
 Print Assumptions C15_fresh_transfer_unverified_refuted.
+
+Theorem C15_fresh_transfer_verified_full_statement_refuted :
+  ~ (forall (sha : bytes -> string) (meta : fname -> bytes -> mres) allow maxdg w cs tried w' c a fn content,
+      scan sha meta allow maxdg w cs tried = (w', SOk c false) ->
+      adv_of (cres c) = Some a -> cfile c = Some fn -> lookup (wdir w') fn = Some content -> sha content = a).
+Proof. exact fresh_transfer_verified_full_statement_refuted. Qed.
+Print Assumptions C15_fresh_transfer_verified_full_statement_refuted.
 
 (* -- index page: retry on 5xx ------------------------------------------------------------------ *)
 Theorem C15_page_retry_within_budget :
@@ -234,15 +233,10 @@ Theorem C15_bzl_user_dir_never_deleted :
 Proof. exact bzl_user_dir_never_deleted. Qed.
 Print Assumptions C15_bzl_user_dir_never_deleted.
 
-Theorem C15_bzl_tmp_removed_all_exits_partial :
-  forall sc : script, sc SBuildRepo = None -> o_removed (run_bzl false sc) = true.
-Proof. exact bzl_tmp_removed_all_exits_partial. Qed.
-Print Assumptions C15_bzl_tmp_removed_all_exits_partial.
-
-Theorem C15_bzl_tmp_left_behind_refuted :
-  ~ (forall sc : script, o_removed (run_bzl false sc) = true).
-Proof. exact bzl_tmp_left_behind_refuted. Qed.
-Print Assumptions C15_bzl_tmp_left_behind_refuted.
+Theorem C15_bzl_tmp_removed_all_exits :
+  forall sc : script, o_removed (run_bzl false sc) = true.
+Proof. exact bzl_tmp_removed_all_exits. Qed.
+Print Assumptions C15_bzl_tmp_removed_all_exits.
 
 (* -- frame and self-healing ---------------------------------------------------------------------- *)
 Theorem C15_scan_touches_only_candidate_files :
@@ -254,7 +248,7 @@ Print Assumptions C15_scan_touches_only_candidate_files.
 
 Theorem C15_honest_transfer_heals :
   forall (sha : bytes -> string) w fn res a st b s,
-  adv_of res = Some a -> wscript w = RBody st b :: s -> sha b = a ->
+  adv_of res = Some a -> wscript w = RBody st b :: s -> raises_for_status st = false -> sha b = a ->
   exists w' cached content, do_download sha w fn res = (w', DOk cached) /\
     lookup (wdir w') fn = Some content /\ sha content = a.
 Proof. exact honest_transfer_heals. Qed.
@@ -267,8 +261,9 @@ Print Assumptions C15_user_dir_never_deleted_given.
 
 (* -- the shape facts read by T1 that the cache model relies on ------------------------------------ *)
 Theorem C15_gen_download_shape :
-  dl_status_refs = 0%N /\ dl_digest_sep = "#sha256="%string /\ dl_reuse_guarded_by_digest = true /\
-  dl_removes_on_mismatch = true /\ rc_except_class = EMetadata /\ rc_removal_guard_ok = true /\
+  dl_status_refs = 1%N /\ dl_status_check_before_write = true /\ dl_digest_sep = "#sha256="%string /\
+  dl_reuse_guarded_by_digest = true /\
+  dl_removes_on_mismatch = true /\ rc_except_class = "Exception"%string /\ rc_removal_guard_ok = true /\
   rc_reraises = true /\ scan_handlers = [EMetadata].
 Proof. exact gen_download_shape. Qed.
 Print Assumptions C15_gen_download_shape.
